@@ -1132,3 +1132,30 @@ def get_index_dtype(size, allow_negative=False):
         if size <= np.iinfo(dtype).max + 1:
             return dtype
     raise ValueError(f"size {size} is too large to be represented as an index")
+
+
+def bincount_cs(inds, weights, minlength=0):
+    """
+    Sum weights per index like numpy.bincount, but also for complex weights.
+
+    numpy.bincount only accepts real weights, so the real and imaginary parts are summed separately
+    when the weights are complex (e.g., linear vectors under complex step).
+
+    Parameters
+    ----------
+    inds : ndarray of int
+        Non-negative index of the bin of each weight.
+    weights : ndarray
+        Real or complex weights.
+    minlength : int
+        Minimum number of bins.
+
+    Returns
+    -------
+    ndarray
+        Sum of the weights in each bin.
+    """
+    if np.iscomplexobj(weights):
+        return (np.bincount(inds, weights.real, minlength=minlength) +
+                1j * np.bincount(inds, weights.imag, minlength=minlength))
+    return np.bincount(inds, weights, minlength=minlength)
